@@ -291,11 +291,13 @@ impl GlobWalker {
                 let depth = entry.depth().saturating_sub(1);
                 for (position, candidate) in path
                     .components()
-                    .skip(depth)
                     .filter_map(|component| match component {
                         Component::Normal(component) => Some(CandidatePath::from(component)),
                         _ => None,
                     })
+                    // Component programs only correspond to normal components, so skip components
+                    // only after any other components (e.g., a root) have been discarded.
+                    .skip(depth)
                     .zip_longest(self.program.components.iter().skip(depth))
                     .with_position()
                 {
